@@ -194,12 +194,7 @@ func runC17(p *Program, r *Report) {
 // mode. It returns the unique encoding/json.Marshal call of the function (for the encoder rules).
 func c17FrameByLanguage(p *Program, r *Report, s *Summarizer, fn *ssa.Function, site CtorSite, cname string) *ssa.Call {
 	oe := newOutEval(p, s)
-	fr := &oframe{fn: fn, env: termEnv{}, bind: map[ssa.Value]*lx{}}
-	for i, prm := range fn.Params {
-		if isStringish(prm.Type()) {
-			fr.env[prm] = Term{Param: i}
-		}
-	}
+	fr := oe.topFrame(fn)
 	x := oe.strLx(site.Store.Val, site.Store.Block(), fr)
 	// the script parameter is a compile-time constant of the caller: any text
 	const spec = `var [$_A-Za-z][$_A-Za-z0-9]* = [^<>&\x{2028}\x{2029}\x00-\x1f]*;\n[\s\S]*`
@@ -271,12 +266,7 @@ func c17ByLanguage(p *Program, r *Report, s *Summarizer, fn *ssa.Function, cname
 	pv := NewProv(p)
 	oe := newOutEval(p, s)
 	oe.Markers = true
-	fr := &oframe{fn: fn, env: termEnv{}, bind: map[ssa.Value]*lx{}}
-	for i, prm := range fn.Params {
-		if isStringish(prm.Type()) {
-			fr.env[prm] = Term{Param: i}
-		}
-	}
+	fr := oe.topFrame(fn)
 	want := "var " + string(markerRune(Term{Param: 0}.Key())) + " = " + string(markerRune(jsonMarkBase+1)) + ";\n" + string(markerRune(Term{Param: 2}.Key()))
 	success := map[*ssa.Return]bool{}
 	for i, ret := range Returns(fn) {
